@@ -558,13 +558,24 @@ impl<T> VerifMutex<T> {
 // ---------------------------------------------------------------------------
 
 #[cfg(feature = "sync")]
-pub struct VerifMap<K, V, S>(dashmap::DashMap<K, V, S>);
+pub struct VerifMap<K, V, S>(dashmap::DashMap<K, V, S>, AtomicUsize);
 
 #[cfg(feature = "sync")]
 impl<K, V, S> std::ops::Deref for VerifMap<K, V, S> {
     type Target = dashmap::DashMap<K, V, S>;
     fn deref(&self) -> &Self::Target {
         &self.0
+    }
+}
+
+/// While alive, the shard is marked as "being written" (see `VerifMap::enter_write`).
+#[cfg(feature = "sync")]
+pub(crate) struct WriteMark<'a>(&'a AtomicUsize);
+
+#[cfg(feature = "sync")]
+impl Drop for WriteMark<'_> {
+    fn drop(&mut self) {
+        self.0.fetch_sub(1, Ordering::SeqCst);
     }
 }
 
@@ -575,16 +586,42 @@ where
     S: std::hash::BuildHasher + Clone,
 {
     pub(crate) fn new(map: dashmap::DashMap<K, V, S>) -> Self {
-        Self(map)
+        Self(map, Default::default())
     }
 
+    /// A write operation on the key's shard begins: blocking point (runnable only while
+    /// no iterator holds the shard), then the shard is marked as being written until the
+    /// returned guard is dropped. A real write holds the shard's lock for a moment; with
+    /// the fine-grained points on, that moment is made visible to the scheduler as one
+    /// more point (`map.inwrite`) at which other threads can run: blocking reads of the
+    /// shard simply happen before the write, the non-blocking `try_*` operations below
+    /// find the shard locked - which is what they would find in a real execution. (One
+    /// marker for the whole map: which keys share a shard depends on the hasher, and for
+    /// any two keys some hasher puts them into one shard.)
     #[inline]
-    fn gate<Q>(&self, label: &'static str, key: &Q)
+    fn enter_write<Q>(&self, label: &'static str, key: &Q) -> WriteMark<'_>
     where
         K: std::borrow::Borrow<Q>,
         Q: std::hash::Hash + Eq + ?Sized,
     {
         block_until(label, &|| !self.0.try_get_mut(key).is_locked());
+        let mark = &self.1;
+        mark.fetch_add(1, Ordering::SeqCst);
+        if FINE.load(Ordering::Relaxed) {
+            // (a blocking point with the same probe: the real operation that follows
+            // must find the shard free, whatever ran in between)
+            block_until("map.inwrite", &|| !self.0.try_get_mut(key).is_locked());
+        }
+        WriteMark(mark)
+    }
+
+    #[inline]
+    fn being_written<Q>(&self, _key: &Q) -> bool
+    where
+        K: std::borrow::Borrow<Q>,
+        Q: std::hash::Hash + Eq + ?Sized,
+    {
+        self.1.load(Ordering::SeqCst) > 0
     }
 
     pub(crate) fn remove<Q>(&self, key: &Q) -> Option<(K, V)>
@@ -592,7 +629,7 @@ where
         K: std::borrow::Borrow<Q>,
         Q: std::hash::Hash + Eq + ?Sized,
     {
-        self.gate("map.remove", key);
+        let _w = self.enter_write("map.remove", key);
         self.0.remove(key)
     }
 
@@ -601,7 +638,7 @@ where
         K: std::borrow::Borrow<Q>,
         Q: std::hash::Hash + Eq + ?Sized,
     {
-        self.gate("map.remove_if", key);
+        let _w = self.enter_write("map.remove_if", key);
         // the predicate runs under the shard's write lock
         let _quiet = NoSwitch::new();
         self.0.remove_if(key, f)
@@ -609,12 +646,52 @@ where
 
     #[allow(dead_code)]
     pub(crate) fn insert(&self, key: K, value: V) -> Option<V> {
-        self.gate("map.insert", &key);
+        let _w = self.enter_write("map.insert", &key);
         self.0.insert(key, value)
     }
 
     pub(crate) fn entry(&self, key: K) -> dashmap::mapref::entry::Entry<'_, K, V> {
-        self.gate("map.entry", &key);
+        // (the callers consume the entry inside a `NoSwitch` region: nothing is
+        // scheduled between here and the release of the real lock)
+        let _w = self.enter_write("map.entry", &key);
         self.0.entry(key)
+    }
+
+    // The non-blocking operations: a switch point, then "locked" if another thread is
+    // inside a write operation on the shard, else the real attempt.
+
+    #[allow(dead_code)]
+    pub(crate) fn try_get<Q>(&self, key: &Q) -> dashmap::try_result::TryResult<dashmap::mapref::one::Ref<'_, K, V>>
+    where
+        K: std::borrow::Borrow<Q>,
+        Q: std::hash::Hash + Eq + ?Sized,
+    {
+        sp("map.try_get");
+        if self.being_written(key) {
+            return dashmap::try_result::TryResult::Locked;
+        }
+        self.0.try_get(key)
+    }
+
+    #[allow(dead_code)]
+    pub(crate) fn try_get_mut<Q>(&self, key: &Q) -> dashmap::try_result::TryResult<dashmap::mapref::one::RefMut<'_, K, V>>
+    where
+        K: std::borrow::Borrow<Q>,
+        Q: std::hash::Hash + Eq + ?Sized,
+    {
+        sp("map.try_get_mut");
+        if self.being_written(key) {
+            return dashmap::try_result::TryResult::Locked;
+        }
+        self.0.try_get_mut(key)
+    }
+
+    #[allow(dead_code)]
+    pub(crate) fn try_entry(&self, key: K) -> Option<dashmap::mapref::entry::Entry<'_, K, V>> {
+        sp("map.try_entry");
+        if self.being_written(&key) {
+            return None;
+        }
+        self.0.try_entry(key)
     }
 }
